@@ -22,13 +22,14 @@ Section Nuget.
   Variable vok : bytes -> bool.
   Variable vcmp : bytes -> bytes -> comparison.
 
-  (* parseInclusiveRange / parseExclusiveRange: exactly two parts, both must parse *)
-  Definition parse_two (lo_op hi_op : bytes) (t : bytes) : option (list constraint) :=
+  (* the common tail of parseInclusiveRange / parseExclusiveRange: both sides must parse *)
+  Definition two_bounds (lo_op hi_op : bytes) (a b : bytes) : option (list constraint) :=
+    if vok a then if vok b then Some [(lo_op, a); (hi_op, b)] else None else None.
+
+  (* parseInclusiveRange: exactly two parts, both must parse *)
+  Definition parse_incl (t : bytes) : option (list constraint) :=
     match split_c ","%char (inner t) with
-    | [p0; p1] =>
-        let a := trim_space p0 in
-        let b := trim_space p1 in
-        if vok a then if vok b then Some [(lo_op, a); (hi_op, b)] else None else None
+    | [p0; p1] => two_bounds $">=" $"<=" (trim_space p0) (trim_space p1)
     | _ => None
     end.
 
@@ -44,8 +45,18 @@ Section Nuget.
           if vok b then Some [(hi_op, b)] else None
         else if negb (is_nil a) && is_nil b then
           if vok a then Some [(lo_op, a)] else None
-        else
-          if vok a then if vok b then Some [(lo_op, a); (hi_op, b)] else None else None
+        else two_bounds lo_op hi_op a b
+    | _ => None
+    end.
+
+  (* parseExclusiveRange: exactly one empty side is handed to parseMixedRange *)
+  Definition parse_excl (t : bytes) : option (list constraint) :=
+    match split_c ","%char (inner t) with
+    | [p0; p1] =>
+        let a := trim_space p0 in
+        let b := trim_space p1 in
+        if xorb (is_nil a) (is_nil b) then parse_mixed t
+        else two_bounds $">" $"<" a b
     | _ => None
     end.
 
@@ -110,8 +121,8 @@ Section Nuget.
         | [] => None
         | _ => if vok a then Some [($"=", a)] else None
         end
-      else if lb && rb && comma then parse_two $">=" $"<=" t
-      else if lp && rp && comma then parse_two $">" $"<" t
+      else if lb && rb && comma then parse_incl t
+      else if lp && rp && comma then parse_excl t
       else if ((lb && rp) || (lp && rb)) && comma then parse_mixed t
       else parse_plain t
     else parse_plain t.
